@@ -13,7 +13,8 @@
    LinkLooping exactly on followed cycles, parent before content (after it with contents_first), sibling
    order and grouping; while running: nothing rejected by the filter is ever yielded, the listing stack
    never exceeds max_depth.  Lemmas over the initial states: AllOuts = the sequences ValidOrder accepts
-   (on configurations with at most PermMax emitting visits), listing helpers = children / descendants. *)
+   (on configurations with at most PermMax emitting visits), Expected is admissible also when nothing is sorted,
+   listing helpers = children / descendants. *)
 EXTENDS Traversal
 CONSTANTS MaxLinks, OptStride, LinkStride, PermMax
 
@@ -116,6 +117,8 @@ PredicateTight == (~Pre /\ steps = 0 /\ Cardinality(Emitting(Visits(Fs, cfg.root
        perms == PermsOf({v.route : v \in E})
        seqs == {[i \in 1..Len(p) |-> (CHOOSE v \in E : v.route = p[i]).lab] : p \in perms}
    IN {s \in seqs : ValidOrderN(s, Fs, cfg.root, O)} = AllOuts(Fs, cfg.root, O)
+\* the validators accept a sequence equal to Expected without looking further: Expected is always admissible
+ExpectedAdmissible == (~Pre /\ steps = 0) => Expected(Fs, cfg.root, O) \in AllOuts(Fs, cfg.root, O)
 ListWhats == {"paths", "dirs", "files", "all_paths", "all_dirs", "all_files"}
 ListingLemma == (~Pre /\ steps = 0 /\ Fs[cfg.root].k = "dir") => \A w \in ListWhats :
    LET s == ListingSeq(Fs, cfg.root, w, Rk) IN
